@@ -478,6 +478,17 @@ class Fn(object):
         reach = self.reachable_blocks(cut_edges=cut)
         return p[0] not in reach
 
+    def abnormal_blocks(self):
+        """blocks that end by throwing / calling a noreturn function (their edge to EXIT is not a normal return)"""
+        out = set()
+        for B in self.blocks.values():
+            for e in B.elems:
+                if 'n' in e:
+                    n = self.nodes[e['n']]
+                    if n['k'] == 'CXXThrowExpr' or (n['k'] in CALL_KINDS and n.get('noret')):
+                        out.add(B.id)
+        return out
+
     def returns(self):
         return [i for i in self.walk() if self.nodes[i]['k'] == 'ReturnStmt']
 
